@@ -21,15 +21,13 @@ def build_history(rng, oid, kind, nops, with_stats=True, op_filter=None, freq=No
         if naz > 1 and rng.random() < 0.2:
             # both inclusive ends of the legal range (np.linspace(0, 180, n)), or one direction measured twice: every entry of the list is an azimuth of its
             # own for the statistics (the number of azimuths is the length of the list)
-            if naz < 3 or rng.random() < 0.6:
+            if rng.random() < 0.6:
                 azs[0], azs[-1] = 0.0, 180.0
             else:
-                # never next to each other: two ADJACENT equal azimuths are merged by the unchanged reader (known finding C12-d, witnessed on its own in c12.py)
+                # possibly next to each other ([15.0, 15.0]): two adjacent equal azimuths were merged by the reader (defect C12-d, repaired)
                 azs[-1] = azs[0]
         if naz > 1 and rng.random() < 0.3:      # an azimuthal object assembled by hand: the azimuths need not be ascending
-            perm = [azs[j] for j in rng.permutation(naz)]
-            if all(a != b for a, b in zip(perm, perm[1:])):
-                azs = perm
+            azs = [azs[j] for j in rng.permutation(naz)]
         m = Mirror.az(oid, freq, rows_per_az, azs)
     steps = []
 
